@@ -459,6 +459,11 @@ def r15e(run):
                 trig = b
         excl = kwarg(c, "excludes") or (c.args[1] if len(c.args) > 1 else None)
         excl_txt = unparse(excl) if excl is not None else ""
+        if isinstance(excl, ast.Name) and excl.id in fa.rd.locals:
+            # the list may be built in a local first: take the text of its definitions
+            for d in fa.rd.defs_of(n, excl.id):
+                if d is not fa.cfg.entry and d.kind == "stmt" and isinstance(d.ast, (ast.Assign, ast.AugAssign)):
+                    excl_txt += " " + unparse(d.ast.value)
         if trig is None:
             run.ob("R15e", f, f"sanitiser call `{unparse(c)[:50]}` is unconditional", True, nontrivial=False)
             disj = []
